@@ -12,6 +12,7 @@ from harness.lib.group_fakeclient import GroupWorld, show_frac
 
 KNOWN_JOIN_DURING_STOP = "join-while-stop-drain-pending"
 KNOWN_NONKAFKA_ESCAPE = "F12-nonkafka-error-escaping-join-swallowed"
+KNOWN_REQS_DURING_STOP_DRAIN = "group-requests-during-stop-drain"
 
 WHAT = {
     "fenced": "a running partition consumer does not carry the member's current generation/member id, or its partition is not in the current assignment",
@@ -23,7 +24,13 @@ WHAT = {
     "oneJoin": "more than one join/sync exchange in flight",
     "heartbeatOnlyStable": "a heartbeat was sent while the member was not a stable member",
     "afterStopOnlyLeave": "a group request other than the leave was issued after stop",
-    "neverIdle": "started and not stopping, but no join in flight, no heartbeat timer of a stable member, no rejoin/retry timer and start's Deferred not fired: the member is idle",
+    "noJoinAfterStopCalled": "a JoinGroup request was issued after stop() had been called",
+    "startsWithJoinIds": "consumers were started with a member id / generation other than those of the last successful join reply",
+    "strictAfterStop": "a group request other than the leave was issued after stop() had been called (strict reading)",
+    "heartbeatIds": "a heartbeat was sent while stopping or wanting a rejoin, or does not quote the member's current generation and member id",
+    "joinLast": "within one step something was observed after the JoinGroup request (e.g. a consumer stopped only after the join was sent)",
+    "joinProgress": "the join coroutine is alive but no client request of it is outstanding and no consumer is draining: nothing will ever wake it",
+    "neverIdle": "started and not stopping, but no join in flight, no heartbeat timer of a stable member and no rejoin/retry timer: the member is idle",
     "retriableRejoins": "a retriable (Kafka) error did not leave a rejoin/retry timer with the documented back-off",
     "fatalSurfaces": "a non-Kafka error did not surface on the Deferred returned by start()",
     "freshAfterEviction": "after an UnknownMemberId / InvalidGroupId eviction a JoinGroup quoted the old (non-empty) member id: a coordinator that forgot the member refuses it for ever, the member never becomes stable again",
@@ -81,6 +88,11 @@ def tags_for(name, scn, steps, idx, first):
         if "joinNoRunning" not in first and "stop" in scn["events"][: idx + 1]:
             return [KNOWN_JOIN_DURING_STOP]
         return ["join-with-live-consumers"]
+    if name == "strictAfterStop":
+        obs = steps[idx]["obs"] if idx is not None and idx < len(steps) else []
+        if any(o.split()[0] in ("join", "sync", "loadParts") for o in obs if o):
+            return ["strictAfterStop-join-or-sync"]
+        return [KNOWN_REQS_DURING_STOP_DRAIN]
     if name in ("neverIdle", "escapeSurfaces"):
         w = ev.split()
         if w and w[0] in ("coordDone", "metaDone", "partsDone") and len(w) > 1 and w[1] in ("err:nonKafka", "err:cancelled"):
